@@ -263,17 +263,30 @@ def order_preserved(rep, prog):
     fi = prog.index(fn)
     loops = [n for n in walk(fn["body"]) if n.get("k") in ("ForStmt", "WhileStmt")]
     found = {"cell": False, "face": False}
-    for l in loops:
+    wrong = {"cell": None, "face": None}
+    def is_sibling_loop(l):
+        if l is None or l.get("k") not in ("ForStmt", "WhileStmt"):
+            return False
         txt = render(l.get("inc") or {}) + " " + " ".join(render(x) for x in walk(l["body"]) if x.get("k") in ("BinaryOperator", "CXXOperatorCallExpr") and x.get("op") == "=")
-        sib = "NextSiblingElement" in txt
-        for x in walk(l["body"]):
-            if x.get("k") == "CXXMemberCallExpr" and x.get("callee", "").split("::")[-1] in ("push_back", "add_face_type"):
-                inner_loop = fi.enclosing(x, ("ForStmt", "WhileStmt"))
-                if inner_loop is l and sib:
-                    if x["callee"].endswith("add_face_type") or "std::vector<face_type_parameters" in x["callee"]:
-                        found["face"] = True
-                    elif "shared_ptr<cell_type_parameters>" in x["callee"]:
-                        found["cell"] = True
+        return "NextSiblingElement" in txt
+    for x in walk(fn["body"]):
+        if x.get("k") == "CXXMemberCallExpr" and x.get("callee", "").split("::")[-1] in ("push_back", "add_face_type", "emplace_back", "insert"):
+            kind = "face" if (x["callee"].endswith("add_face_type") or "std::vector<face_type_parameters" in x["callee"]) else ("cell" if "shared_ptr<cell_type_parameters>" in x["callee"] and "std::vector" in x["callee"] else None)
+            if kind is None:
+                continue
+            # the innermost loop of ANY kind around the append must be the document-order sibling loop itself: an append made
+            # while walking another container (e.g. a std::map keyed by id) re-orders the types
+            inner_loop = fi.enclosing(x, ("ForStmt", "WhileStmt", "CXXForRangeStmt", "DoStmt"))
+            if is_sibling_loop(inner_loop) and x["callee"].split("::")[-1] in ("push_back", "add_face_type", "emplace_back"):
+                found[kind] = True
+            else:
+                wrong[kind] = (x, inner_loop)
+    for k_, w in wrong.items():
+        if w is not None:
+            found[k_] = False
+            rep.violation("C18.order-preserved", prog, fn, w[0], "%s types appended outside the document-order loop" % k_,
+                          "%s is executed %s, not directly in the loop that walks the <%s_type> elements with NextSiblingElement (e.g. while iterating a map ordered by id): the position of a type in the list - which is what "
+                          "faces and cells refer to - no longer is its position in the file" % (short(w[0], 70), ("inside the loop at line %s" % w[1].get("l")) if w[1] else "outside any loop", k_))
     add = prog.fn("cell_type_parameters::add_face_type", required=False)
     if add is not None and not any(x.get("k") == "CXXMemberCallExpr" and x.get("callee", "").endswith("::push_back") for x in walk(add["body"])):
         found["face"] = False
